@@ -31,6 +31,9 @@ def make_f(case, s, dt):
     elif kind == "jump":
         def f(x):
             return sv * np.sign(x - roots[0]) * (1 + np.abs(x))
+    elif kind == "decay":
+        def f(x):
+            return sv * (x - roots[0]) / (1 + x * x)
     else:
         def f(x):
             return sv * np.ones_like(x)
@@ -47,6 +50,8 @@ def exact_sign_and_small(case, s, x, tol):
     elif case["kind"] == "jump":
         d = xf - Fraction(case["roots"][0], 8)
         v = Fraction(s) * ((d > 0) - (d < 0)) * (1 + abs(xf))
+    elif case["kind"] == "decay":
+        v = Fraction(s) * (xf - Fraction(case["roots"][0], 8)) / (1 + xf * xf)
     else:
         v = Fraction(s)
     return ((v > 0) - (v < 0)), abs(v) <= tol
@@ -112,7 +117,7 @@ def batch_job(job):
 
 def check(run, replay=None):
     thorough = run.tier == "thorough"
-    run.rule = ("cells = function x bracket lattice generated by TLC (11 functions x 156 ordered brackets) x scale x tolerance x dtype x {scalar, vectorised}; "
+    run.rule = ("cells = function x bracket lattice generated by TLC (13 functions x 210 ordered brackets incl. wide lopsided ones) x scale x tolerance x dtype x {scalar, vectorised}; "
                 "non-trivial = cell whose function changes sign over the bracket; distinct by cell")
     gen = run.generate("Contracts", workers=2)
     cases = gen["cases"]
